@@ -16,12 +16,13 @@ CHECKS = {
     technique="contract-based deductive verification: pyvc VC generation from the AST of the real methods + z3/cvc5; bounded native contract check as cross-check",
     engine="pyvc"),
  "C01": dict(
-    level=("exploration", "Bounded run-time contract check: the postcondition of CircuitTemplate.get_run_func (distinct state layout, declared "
+    level=("other", "Deductive (small core): the state-layout loop of ComputeGraph.to_func assigns contiguous, pairwise disjoint, ordered "
+            "ranges to the state variables for any number and sizes of variables. Bounded run-time contract check for everything else: the postcondition of CircuitTemplate.get_run_func (distinct state layout, declared "
             "argument values, derivative == reference semantics at random states and parameter draws) is evaluated on structured and seeded "
             "families of generated models; no verifier installed here can execute the sympy/networkx/exec pipeline symbolically, so nothing "
             "is claimed beyond the enumerated cases.", "5 C01"),
     note="Trusted: MDL rendering and spec_rhs (harness, no string parsing), float64 tolerance 1e-8, fork-per-case isolation.",
-    technique="bounded contract checking of the real API against a pure spec function (labelled bounded, not proved)", engine="rtc", rtc=True),
+    technique="contract-based deductive verification of the state-layout loop (pyvc) + bounded contract checking of the real API against a pure spec function (labelled bounded, not proved)", engine="pyvc", rtc=True),
  "C03": dict(
     level=("other", "Proved core + bounded shell. Deductive (unbounded in steps, cadence, state): the real _solve_euler/_solve_heun loops (ODE and "
             "DDE variants) return exactly the Euler/Heun iterates in the stated rows, call the vector field with the step counter, feed the history "
@@ -90,9 +91,9 @@ CHECKS = {
             "the history feed of the loops (C03) are proved.", "5 C10"),
     note="Trusted: spec_rhs with hist; method-of-steps reference.", technique="bounded contract checking against spec with user-supplied history (history buffer and feed proved in C19/C03)", engine="rtc", rtc=True),
  "C12": dict(
-    level=("exploration", "Bounded: J(t,y) of get_jacobian_func against central differences of the get_run_func field in the same ordering, dense and "
+    level=("other", "Deductive (small core): get_jacobian_func's state-layout loop satisfies the same uniquely determining contract as to_func's (same state ordering). Bounded: J(t,y) of get_jacobian_func against central differences of the get_run_func field in the same ordering, dense and "
             "sparse, history matrices via a perturbed hand-made history, auto-07p DFDU/DFDP at text level.", "5 C12"),
-    note="Trusted: central differences h=1e-6 in float64.", technique="bounded contract checking of the Jacobian against finite differences of the real vector field", engine="rtc", rtc=True),
+    note="Trusted: central differences h=1e-6 in float64.", technique="contract-based deductive verification of the layout loop (pyvc) + bounded contract checking of the Jacobian against finite differences of the real vector field", engine="pyvc", rtc=True),
  "C13": dict(
     level=("exploration", "Bounded: every single API operation and seeded histories of 2 (thorough 3) operations over a pool of colliding models run "
             "in one process; afterwards the target model and every function returned earlier must satisfy their own spec.", "5 C13"),
